@@ -56,6 +56,8 @@ int main(int argc, char** argv) {
             TR.begin_exec();
             V* v = new V; std::vector<std::vector<Sample>> samples(N);
             Sched S; S.stall_limit = 30000; S.log_schedule = true; focus_only(false);
+            // the words of the growth protocol: PCT places its change points right after an access to one of them with probability 1/3
+            untrack_all(); track(&v->my_segment_table); track(&v->my_first_block); track(&v->my_size);
             S.spawn(N, [&](int t) { body(*v, t, samples[t]); });
             int rc = S.run_random(seed0 + r, 3000000, dens[r % 8]); ++paths; steps += S.steps;
             TR.sched(S.sched_log);
